@@ -112,6 +112,27 @@ impl Prop for C09 {
             push("named-number", format!("named-number|names={pool}|ctx=assign"), vec![d.clone(), format!("Mid ::= {pool} (lo..hi)")], vec![d.clone(), format!("Mid ::= {pool} (2..9)")], vec!["Mid"]);
             push("named-number", format!("named-number|names={pool}|ctx=component"), vec![d.clone(), format!("Mid ::= SEQUENCE {{ f {pool} (lo..hi) }}")], vec![d.clone(), format!("Mid ::= SEQUENCE {{ f {pool} (2..9) }}")], vec!["Mid"]);
         }
+        // named numbers / enumerals of the governing type while other types of the module define the same names
+        // with other numbers (before and after the governing type in name order)
+        for (gov, others) in [("Mmm", vec!["Aaa", "Zzz"]), ("Aaa", vec!["Mmm", "Zzz"]), ("Zzz", vec!["Aaa", "Mmm"])] {
+            let mut defs = vec![format!("{gov} ::= INTEGER {{ lo(2), hi(9) }}")];
+            for (i, o) in others.iter().enumerate() {
+                defs.push(format!("{o} ::= INTEGER {{ lo({}), hi({}) }}", 20 + i, 70 + i));
+            }
+            for (ctx, sug, exp) in [
+                ("assign", format!("Mid ::= {gov} (lo..hi)"), format!("Mid ::= {gov} (2..9)")),
+                ("component", format!("Mid ::= SEQUENCE {{ f {gov} (lo..hi) }}"), format!("Mid ::= SEQUENCE {{ f {gov} (2..9) }}")),
+                ("alternative", format!("Mid ::= CHOICE {{ f {gov} (lo..hi), g NULL }}"), format!("Mid ::= CHOICE {{ f {gov} (2..9), g NULL }}")),
+                ("single", format!("Mid ::= {gov} (hi)"), format!("Mid ::= {gov} (9)")),
+                ("default", format!("Mid ::= SEQUENCE {{ f {gov} DEFAULT hi }}"), format!("Mid ::= SEQUENCE {{ f {gov} DEFAULT 9 }}")),
+            ] {
+                let mut s2 = defs.clone();
+                s2.push(sug);
+                let mut e2 = defs.clone();
+                e2.push(exp);
+                push("named-number", format!("named-number|names={gov}|shared-names|ctx={ctx}"), s2, e2, vec!["Mid"]);
+            }
+        }
         // ---- (b) COMPONENTS OF
         let own = ["o0 BOOLEAN", "o1 NULL OPTIONAL", "o2 UTF8String"];
         for kind in ["SEQUENCE", "SET"] {
